@@ -768,6 +768,13 @@ func parseFloatV(s value) value {
 	if len(bs) == 0 {
 		return bad()
 	}
+	// a concrete byte that occurs in no float syntax (decimal, exponent, hex, inf, infinity, nan,
+	// underscores) makes the string invalid whatever the symbolic bytes are
+	for _, b := range bs {
+		if c, ok := b.(uint8); ok && strings.IndexByte("0123456789+-._eEpPxXaAbBcCdDfFiInNtTyY", c) < 0 {
+			return bad()
+		}
+	}
 	isB := func(b value, c byte) bool {
 		return byteIs(b, func(x byte) bool { return x == c }, func(t *sym.Term) *sym.Term { return sym.Eq(t, sym.Int(int64(c))) })
 	}
@@ -798,8 +805,10 @@ func parseFloatV(s value) value {
 			sawDot = true
 			continue
 		}
-		// any other byte: exponent / inf / nan / hex / underscore forms are not modelled symbolically
-		if byteIs(b, func(c byte) bool { return strings.IndexByte("eEpPxXiInN_aAfFtTyY", c) >= 0 }, func(t *sym.Term) *sym.Term {
+		// any other byte: exponent / inf / nan / hex / underscore forms are not modelled symbolically.
+		// None of them fits in fewer than 3 bytes ("1e5", "inf", "nan", "0x1p0"), so a shorter string
+		// with such a byte is simply invalid.
+		if len(bs) >= 3 && byteIs(b, func(c byte) bool { return strings.IndexByte("eEpPxXiInN_aAfFtTyY", c) >= 0 }, func(t *sym.Term) *sym.Term {
 			var ds []*sym.Term
 			for _, c := range []byte("eEpPxXiInN_aAfFtTyY") {
 				ds = append(ds, sym.Eq(t, sym.Int(int64(c))))
